@@ -13,7 +13,8 @@ consolidation, the same declared shared-dimension constraint under the declared 
     key1 == key2  ->  same unpatched key (requests-cache's own URL normalisation)
                       or (same decoded ce, in the shared set, same scheme and netloc, and
                           (both under the base on segment boundaries with netloc == base netloc
-                           or both on the Earthdata host with the same provider/collection)).
+                           or both on the Earthdata host with the same provider/collection: NOT the property's wording,
+                              reported under the open finding C18.earthdata_collection_outside_base (round 7))).
 
 `replay_case(case) -> bool` re-runs one recorded pair on the implementation (True = property holds).
 """
@@ -148,14 +149,29 @@ def may_share(cfg, pu1, pu2):
         return False, "constraint differs or is not in the declared shared set"
     if (s1, h1) != (s2, h2):
         return False, "scheme or host differs"
-    if h1 == EARTHDATA:
-        k1, k2 = collection_of(p1), collection_of(p2)
-        if k1 is not None and k1 == k2:
-            return True, "same Earthdata collection"
     if cfg.base is not None and h1 == cfg.base[1] and under_segments(p1, cfg.base[2]) \
             and under_segments(p2, cfg.base[2]):
         return True, "both under the common base"
+    if h1 == EARTHDATA:
+        k1, k2 = collection_of(p1), collection_of(p2)
+        if k1 is not None and k1 == k2:
+            # round 7 (theorem C18_cache_key_earthdata_refuted): NOT the property's wording - the two requests are not both
+            # under the declared common base; the Earthdata branch groups by provider/collection whatever was declared
+            return True, EARTHDATA_ONLY
     return False, "not both under the declared common base (segment boundaries, base host) nor in one collection"
+
+
+EARTHDATA_ONLY = "same Earthdata collection, not both under the declared common base"
+K_EARTHDATA = "C18.earthdata_collection_outside_base"
+
+
+def wit_earthdata():
+    """the recorded witness of the open finding: no base declared at all, two granules of one collection -> one key.
+    True = still fails"""
+    cfg = Config(["/time[0:1:9]"], None)
+    a = "https://" + EARTHDATA + "/providers/P/collections/C2/granules/g3.dap?dap4.ce=/time[0:1:9]"
+    b = "https://" + EARTHDATA + "/providers/P/collections/C2/granules/g4.dap?dap4.ce=/time[0:1:9]"
+    return cfg.keys(a)[1] == cfg.keys(b)[1] and cfg.keys(a)[2] != cfg.keys(b)[2]
 
 
 def path_class(cfg, host, path):
@@ -186,11 +202,12 @@ def check_pair(ctx, cfg, u1, u2, how):
     if k1 != k2 or o1 == o2:
         return True
     ok, why = may_share(cfg, pu1, pu2)
-    if not ok:
+    if not ok or why == EARTHDATA_ONLY:
         case = dict(cfg.describe(), url1=u1, url2=u2, how=how)
-        ctx.oracle_fail("cache key collision", case,
-                        {"key1": k1, "key2": k2, "classes": [t1, t2]},
-                        "distinct keys: " + why, cls=None, size=len(u1) + len(u2) + 10 * len(cfg.known or ()))
+        ctx.oracle_fail("cache key collision" if not ok else "cache entry shared outside the declared common base (Earthdata grouping)",
+                        case, {"key1": k1, "key2": k2, "classes": [t1, t2]},
+                        "distinct keys: " + why, cls=None if not ok else K_EARTHDATA,
+                        size=len(u1) + len(u2) + 10 * len(cfg.known or ()))
     return ok
 
 
@@ -200,7 +217,8 @@ def replay_case(case):
     pu2, k2, o2 = cfg.keys(case["url2"])
     if k1 != k2 or o1 == o2:
         return True
-    return may_share(cfg, pu1, pu2)[0]
+    ok, why = may_share(cfg, pu1, pu2)
+    return ok and why != EARTHDATA_ONLY
 
 
 # ------------------------------------------------------------------------------------------------
